@@ -101,14 +101,20 @@ impl Token {
         let base = gen::lower_alphabet(lang);
         let fw = accented_function_words(lang);
         let accented: Vec<char> = acc.iter().map(|a| a.composed).chain(exp.iter().map(|e| e.0)).collect();
+        let sufs = gen::suffixes(lang);
         let mut gen_word = |rng: &mut Rng| -> String {
             let n = rng.range(1, 9);
-            (0..n)
+            let mut w: String = (0..n)
                 .map(|_| {
                     let c = if !accented.is_empty() && rng.chance(1, 3) { *rng.pick(&accented) } else { *rng.pick(&base) };
                     if rng.chance(1, 8) { one_to_one_case(c).unwrap_or(c) } else { c }
                 })
-                .collect()
+                .collect();
+            if rng.chance(1, 5) {
+                // an ending the stemmer strips (several of them accented): folded and unfolded spellings must stem alike
+                w.push_str(*rng.pick(&sufs));
+            }
+            w
         };
         let mut titles: Vec<String> = vec![];
         for _ in 0..cx.rng.range(1, 5) {
